@@ -74,6 +74,10 @@ func init() {
 		Components: []string{"real: test.Bridge with its two endpoints (readers are concurrent workers; Push/Process sleeps run on the fake clock), dpipe.Pipe", "oracle: reference model of the script per direction (queue, pending drop count, pending reorder stack, filter)"},
 		Assumptions: append([]string{"drop and reorder requests pending at the same time on one direction are not generated (their relative priority is not stated)", "Drop with an offset beyond the queue is not generated"}, stdAssume...),
 		Rule: "script histories: writes in both directions interleaved with DropNextNWrites, ReorderNextNWrites (n=0,1,2.., repeated), Drop, Reorder, Filter, Process (Bridge) or writes/reads/close on both ends (dpipe), message sizes 0..9000, reader slices shorter and longer than the messages. Non-trivial: >=2 writes and >=4 operations; distinct = hash of the script"})
+	def("C14", &propCfg{Pkgs: []string{"vnet"},
+		Components: []string{"real: vnet.DelayFilter (Run is a worker; arrivals through the in-package injector, forwards observed by the stamping sink NIC adaptor) and vnet.Router with MinDelay/MaxJitter between two real vnet hosts", "adaptor: sim/adaptors/vnet (sink NIC + injector, no logic of the code under test)"},
+		Assumptions: append([]string{"'eventually forwarded' is evaluated after 10 simulated minutes without new arrivals (all configured delays are <= 50 ms)"}, stdAssume...),
+		Rule: "delay in {0,1ns,1us,0.2ms,1ms,20ms,50ms}; 1-3 producers with arrival patterns (bursts, spacing = delay +-1ns, half/double delay); both timer-channel modes; router variant with jitter. Non-trivial: >=2 workers and >=1 context switch; distinct = schedule hash"})
 	def("C09", &propCfg{
 		Components:  []string{"real: deadline.Deadline over simrt.Timer (AfterFunc callbacks are workers parked at their entry, so a dispatched-but-unrun callback can be overtaken by further Set calls)", "stub: none"},
 		Assumptions: stdAssume,
